@@ -303,10 +303,10 @@ Proof.
   - rewrite Nat2Z.id, firstn_length_app, skipn_length_app. reflexivity.
 Qed.
 
-Lemma acquire_set_body e0 body : e_seekable e0 = true ->
+Lemma acquire_set_body e0 body :
   acquire (set_body e0 body) = Ok (set_body e0 body, body).
 Proof.
-  intros _. unfold acquire, is_body_readable, content_length, set_body.
+  unfold acquire, is_body_readable, content_length, set_body.
   cbn [e_hdrs e_seekable e_input e_term]. rewrite dict_get_set_same, parse_dec_len.
   destruct body as [|c b].
   - reflexivity.
@@ -408,7 +408,7 @@ Proof.
     + subst body. rewrite dict_set_new by (rewrite Hcl; reflexivity).
       rewrite (hdr_items_app _ k_CL _ n_CL (proj1 n_CL_key) (proj2 n_CL_key)).
       rewrite hdr_items_entries by assumption. reflexivity.
-  - apply acquire_set_body. reflexivity.
+  - apply acquire_set_body.
 Qed.
 
 (* ------------------------------------------------------------------ main theorems *)
@@ -669,4 +669,26 @@ Proof.
   - rewrite O1. destruct Hfr as [->| ->]; reflexivity.
   - rewrite O2. destruct Hfr as [->| ->]; [reflexivity|apply url_set_body].
   - rewrite O3. destruct Hfr as [->| ->]; reflexivity.
+Qed.
+
+(* ------------------------------------------------------------------ repeated use of one request *)
+(* reading the body a second time gives the same body and changes nothing any more *)
+Theorem acquire_idempotent : forall e e1 body, acquire e = Ok (e1, body) -> acquire e1 = Ok (e1, body).
+Proof.
+  intros e e1 body H. destruct (acquire_frame _ _ _ H) as [->| ->]; [assumption|].
+  apply acquire_set_body.
+Qed.
+
+(* as_bytes() leaves the request in a state on which as_bytes() returns the same bytes and which it
+   does not change any more: the serialisation of one Request object is repeatable *)
+Theorem as_bytes_repeatable : forall e b e1,
+  as_bytes SkipNo e = Ok (b, e1) -> as_bytes SkipNo e1 = Ok (b, e1).
+Proof.
+  intros e b e1 H. rewrite as_bytes_no in H. rewrite as_bytes_no.
+  destruct (acquire e) as [[e1' body]|x] eqn:Hacq; [|discriminate].
+  injection H as <- <-.
+  rewrite (acquire_idempotent _ _ _ Hacq).
+  assert (Hline : request_line e1' = request_line e).
+  { destruct (acquire_frame _ _ _ Hacq) as [->| ->]; [reflexivity|]. apply request_line_set_body. }
+  rewrite Hline. reflexivity.
 Qed.
